@@ -151,6 +151,9 @@ def check(pid, tier='quick', seed=0, shared=None, write_evidence=True, quiet=Fal
         for st in meta.get('stubs', []):
             unverified.add(f"{st['mod']}::{st['name']} ({st['file']}) – contract assumed, pinned to body {st['pin']}")
         # --- labelled lemmas (proof fns in spec / raw text): an obligation each
+        lemma_names = set(mm.group(2) for mm in re.finditer(r'//\s*\[(C\d\d\.[A-Za-z0-9_.\-]+)\][^\n]*\n(?:\s*(?:///[^\n]*|#\[[^\n]*\])\n)*\s*(?:pub\s+)?(?:broadcast\s+)?proof fn\s+(\w+)', unit_text))
+        lemma_fail = {}
+        lemma_viol = []
         for ml in re.finditer(r'//\s*\[(C\d\d\.[A-Za-z0-9_.\-]+)\][^\n]*\n(?:\s*(?:///[^\n]*|#\[[^\n]*\])\n)*\s*(?:pub\s+)?(?:broadcast\s+)?proof fn\s+(\w+)', unit_text):
             lab, fname = ml.group(1), ml.group(2)
             if label_prop(lab) != pid:
@@ -165,8 +168,8 @@ def check(pid, tier='quick', seed=0, shared=None, write_evidence=True, quiet=Fal
             obligations.append(ob)
             functions.append({'function': f'lemma {fname}', 'world': wname, 'file': 'verif/contracts (spec)', 'smt_time_us': hits[0].get('time_micros'), 'rlimit': hits[0].get('rlimit')})
             if not ok:
-                violations.append({'obligation': ob['id'], 'label': lab, 'function': f'lemma {fname}', 'world': wname, 'file': 'spec', 'src_span': [0, 0],
-                                   'verus': [f['rendered'] for f in cm['failures'] if fname in f.get('rendered', '')][:3]})
+                lemma_viol.append({'obligation': ob['id'], 'label': lab, 'function': f'lemma {fname}', 'world': wname, 'file': 'spec', 'src_span': [0, 0],
+                                   'lemma': fname, 'verus': []})
         # --- vacuity twins: every reach twin must fail
         reach_failed = set()
         for f in cr['failures']:
@@ -183,11 +186,22 @@ def check(pid, tier='quick', seed=0, shared=None, write_evidence=True, quiet=Fal
                                     f'(contradictory precondition or unreachable exit)')
         # --- failures of the main unit
         fails_by_fn = {}
+        unit_bytes = unit_text.encode('utf-8')
         for f in cm['failures']:
             if f['fn_obj'] is None:
+                # a labelled lemma?  (its verdict comes from the lemma obligations above)
+                pos = min(a for (a, b, prim, lab) in f['spans'])
+                back = unit_bytes[max(0, pos - 4000):pos + 200].decode('utf-8', 'ignore')
+                names = re.findall(r'proof fn\s+(\w+)', back)
+                if names and names[-1] in lemma_names:
+                    lemma_fail.setdefault(names[-1], []).append(f['rendered'])
+                    continue
                 inconclusive.append(f'{wname}: verification failure outside any extracted function: {f["message"]} (line {f["line"]})')
                 continue
             fails_by_fn.setdefault((f['fn_obj']['mod'], f['fn_obj']['name'], f['fn_obj']['variant'], f['fn_obj'].get('probe')), []).append(f)
+        for lv in lemma_viol:
+            lv['verus'] = lemma_fail.get(lv['lemma'], [])[:3]
+            violations.append(lv)
         rl_fns = set()
         for rl in cm['rlimit']:
             hit = None
